@@ -38,8 +38,11 @@ Lemma exq_run_sparse_ok sv : (forall itol, sv = BiCG itol -> itol = 1 \/ itol = 
   exists x g, @run_sparse SAQ sv exq_s [q 1 1; q 2 1] [q 2 1; q 1 1] 10 (q 1 1000) = Ok (IOk 2, x, g).
 Proof.
   intros Hit. apply (@ok_k_witness SAQ).
-  destruct sv as [|itol| |]; try (vm_compute; reflexivity).
-  destruct (Hit itol eq_refl) as [-> | ->]; vm_compute; reflexivity.
+  destruct sv as [|itol| |].
+  - vm_compute; reflexivity.
+  - destruct (Hit itol eq_refl) as [-> | ->]; vm_compute; reflexivity.
+  - vm_compute; reflexivity.
+  - vm_compute; reflexivity.
 Qed.
 
 (* an exact guess for exq_s *)
@@ -71,7 +74,8 @@ Lemma exq_orth_family :
   Forall (fun v => @dot_raw AQ v v <> zero) [[q 1 1; q 1 1]; [q 1 1; q (-1) 1]].
 Proof.
   split; [repeat constructor|]. split.
-  - repeat constructor. apply Qc_is_canon. vm_compute. reflexivity.
+  - constructor; [constructor; [|constructor] | constructor; [constructor|constructor]].
+    apply Qc_is_canon. vm_compute. reflexivity.
   - repeat constructor; intros H; apply (f_equal Qcanon.this) in H; vm_compute in H; discriminate H.
 Qed.
 
@@ -84,8 +88,11 @@ Proof.
   destruct i as [|[|i]]; try lia; destruct j as [|[|j]]; try lia; reflexivity.
 Qed.
 
-Lemma exr_apply (a b : R) : @sp_apply AR exr_s [a; b] = [0 + 4 * a + 1 * b; 0 + 1 * a + 3 * b].
-Proof. reflexivity. Qed.
+Lemma exr_apply (a b : R) : @sp_apply AR exr_s [a; b] = [4 * a + b; a + 3 * b].
+Proof.
+  unfold sp_apply, dmulv, sp_entry, suml, seg. cbn.
+  apply f_equal2; [ring | apply f_equal2; [ring | reflexivity]].
+Qed.
 
 Lemma exr_s_posdef : sp_posdef exr_s.
 Proof.
